@@ -199,8 +199,18 @@ class Report:
 
 def run_guarded(pid: str, tier: str, fn, repo_root: str = '/repo', write: bool = True) -> int:
     rep = Report(pid, tier, repo_root, write)
+    import signal
+    class _Timeout(Exception): pass
+    def _on_alarm(sig, frm): raise _Timeout()
+    limit = int(os.environ.get('VERIF_TIME_LIMIT', '900' if tier == 'quick' else '3600'))
+    try:
+        signal.signal(signal.SIGALRM, _on_alarm); signal.alarm(limit)
+    except Exception:
+        pass
     try:
         fn(rep)
+    except _Timeout:
+        rep.error(f'analysis did not finish within {limit} s (VERIF_TIME_LIMIT): no verdict')
     except AnalysisError as e:
         rep.error(str(e))
     except Exception as e:  # traceback = analysis broken, never a violation
@@ -208,4 +218,6 @@ def run_guarded(pid: str, tier: str, fn, repo_root: str = '/repo', write: bool =
         rep.error(f"internal {type(e).__name__}: {e} @ {tb[-3].strip() if len(tb) >= 3 else ''}")
         if os.environ.get('VERIF_VERBOSE'):
             traceback.print_exc()
+    try: signal.alarm(0)
+    except Exception: pass
     return rep.finish()
